@@ -47,7 +47,7 @@ def run_property(prop, tier, seed, only=None, verbose=False):
         extra_info = extra(tier, seed)
         obligations += extra_info.get('obligations', [])
     discharge.discharge(obligations, timeout_ms=timeout_ms, fallbacks=True)
-    refute_bounded(obligations, verbose)
+    refute_bounded(obligations, verbose, bound=getattr(mod, 'REFUTE_BOUND', 3))
     return report.conclude(prop, tier, seed, mod, cresults, obligations, time.time() - t0, extra_info, verbose=verbose)
 
 
